@@ -40,14 +40,18 @@ theorem walk_sim : ∀ e, Sim (walk T env e) (pyEval T.names env e)
     unfold walk
     split
     · rename_i fn
-      unfold pyEval
       split
       · rename_i hmem
-        have : pyEval T.names env (.name fn) = R.act (.lookup fn) (.ok (env.lookup fn)) := by
-          unfold pyEval; simp [hmem]
-        rw [this]
-        exact Sim.bind (Sim.refl _) fun fv => Sim.bind (walkList_sim args) fun as =>
-          Sim.bind (walkKws_sim kn kv) fun ks => Sim.refl _
+        split
+        · exact Sim.of_failed (failed_fail _)
+        · rename_i hdup
+          unfold pyEval
+          rw [if_neg hdup]
+          have : pyEval T.names env (.name fn) = R.act (.lookup fn) (.ok (env.lookup fn)) := by
+            unfold pyEval; simp [hmem]
+          rw [this]
+          exact Sim.bind (Sim.refl _) fun fv => Sim.bind (walkList_sim args) fun as =>
+            Sim.bind (walkKws_sim kn kv) fun ks => Sim.refl _
       · exact Sim.of_failed (failed_fail _)
     · exact Sim.of_failed (failed_fail _)
   | .list es => by unfold walk pyEval; exact Sim.bind (walkList_sim es) fun _ => Sim.refl _
